@@ -123,7 +123,8 @@ func oracleC11(v *View, vd *Verdict) {
 					if w.st == stAsleep {
 						// messages still in flight on the broker link when the PINGREQ was consumed race with
 						// the wake-up: delivering them in this flush or keeping them for the next one are both fine
-						guard := (v.R.Plan.Cfg.MQ.MaxLatUs+1000)*1000 + v.R.Plan.Broker.AnswerDelayMs*nsMs
+						// (and a slow gateway — stalls — may still be reading them)
+						guard := (v.R.Plan.Cfg.MQ.MaxLatUs+1000)*1000 + v.R.Plan.Broker.AnswerDelayMs*nsMs + v.R.StalledNs
 						kept := pending[:0]
 						for _, m := range pending {
 							if m.sentT <= e.T-guard {
@@ -166,12 +167,22 @@ func genC11(g *Gen, idx int) *Plan {
 	if g.Bool(0.4) {
 		// sleeps longer than the whole retry budget of the gateway's own exchanges
 		cfg.RetryDelayMs = g.Range(200, 3000)
+		if g.Bool(0.3) {
+			// ... and retry timers that come round every few ms: one of them falls into the wake-up flush
+			cfg.RetryDelayMs = g.Range(3, 40)
+			cfg.SN.MaxLatUs = g.Range(300, 2000)
+		}
 	}
 	p := &Plan{Family: "C11-cycles", Cfg: cfg}
 	sg := &sessGen{g: g, cid: "c1"}
 	ka := uint16(g.Range(10, 60))
 	sg.gap(5, 200)
 	sg.add(connectPkt("c1", ka, false, true))
+	pingInFlight := g.Bool(0.3)
+	if pingInFlight {
+		p.Broker.AnswerDelayMs = g.Range(100, 600)
+		sg.t += p.Broker.AnswerDelayMs // the CONNACK comes that much later
+	}
 	sg.gap(300, 800)
 	sg.add(refsn.Pkt{Type: refsn.REGISTER, MsgID: sg.nextMid(), TopicName: "t/a"})
 	sg.gap(100, 400)
@@ -187,9 +198,17 @@ func genC11(g *Gen, idx int) *Plan {
 	p.Family = "C11-cycles-" + fam
 	ncyc := int(g.Range(1, 4))
 	n := 0
+	sg.active = true
 	for c := 0; c < ncyc; c++ {
 		d := uint16(g.Range(2, 30))
+		if pingInFlight && sg.active {
+			// the client's own keep-alive PINGREQ is still on its way through a slow broker when the
+			// client falls asleep: the PINGRESP reaches the gateway during the sleep
+			sg.add(refsn.Pkt{Type: refsn.PINGREQ})
+			sg.gap(2, 40)
+		}
 		sg.add(refsn.Pkt{Type: refsn.DISCONNECT, HasDur: true, Duration: d})
+		sg.active = false
 		t0 := sg.t
 		sg.gap(500, int64(d)*1000)
 		wake := sg.t
@@ -213,6 +232,7 @@ func genC11(g *Gen, idx int) *Plan {
 		}
 		if g.Bool(0.3) {
 			sg.add(connectPkt("c1", ka, false, false))
+			sg.active = true
 			sg.gap(300, 1500)
 		}
 	}
